@@ -15,14 +15,20 @@ Definition ev_sized (o : opts) (e : event) : Prop :=
   (max_head o = 0 \/ ev_series e <= max_head o) /\ ev_total e <= max_proc o.
 
 (* q: the plan the flags are read from (flags never change after getShardInfos) *)
-Definition ev_good (o : opts) (q : plan) (e : event) : Prop :=
-  si_ok (nth_si q (ev_to e)) = true /\ (ev_to e < length q)%nat /\ ev_from e <> Some (ev_to e) /\ ev_fits o e /\ ev_sized o e.
+(* provenance: a moved copy has been scraped min_wait times; a first assignment places the global status of its hash *)
+Definition ev_prov (g : N -> cstat) (sc : N -> bool) (e : event) : Prop :=
+  (ev_from e <> None -> (min_wait <= ev_times e)%N /\ ev_kind_of e <> First) /\
+  (ev_from e = None -> ev_kind_of e = First /\ ev_times e = c_times (g (ev_hash e)) /\ sc (ev_hash e) = false).
 
-Definition EvInv (o : opts) (q p : plan) (evs : list event) : Prop :=
-  le_plan q p /\ Forall (ev_good o q) evs.
+Definition ev_good (o : opts) (g : N -> cstat) (sc : N -> bool) (q : plan) (e : event) : Prop :=
+  si_ok (nth_si q (ev_to e)) = true /\ (ev_to e < length q)%nat /\ ev_from e <> Some (ev_to e) /\ ev_fits o e /\ ev_sized o e /\
+  ev_prov g sc e.
 
-Lemma EvInv_app o q p p' evs evs' :
-  EvInv o q p evs -> le_plan p p' -> Forall (ev_good o q) evs' -> EvInv o q p' (evs ++ evs').
+Definition EvInv (o : opts) (g : N -> cstat) (sc : N -> bool) (q p : plan) (evs : list event) : Prop :=
+  le_plan q p /\ Forall (ev_good o g sc q) evs.
+
+Lemma EvInv_app o g sc q p p' evs evs' :
+  EvInv o g sc q p evs -> le_plan p p' -> Forall (ev_good o g sc q) evs' -> EvInv o g sc q p' (evs ++ evs').
 Proof.
   intros [H1 H2] H3 H4. split; [eapply le_plan_trans; eauto | apply Forall_app; auto].
 Qed.
@@ -77,15 +83,22 @@ Proof.
   apply orb_true_iff in H1. destruct H1 as [H1|H1]; [left; now apply Z.eqb_eq | right; now apply Z.ltb_lt].
 Qed.
 
-Lemma mk_event_good o q p kind from to h series total :
+Lemma mk_event_good o g sc q p kind from to h c :
   le_plan q p -> si_ok (nth_si p to) = true -> from <> Some to ->
-  (max_head o = 0 \/ si_head (nth_si p to) + series < max_head o) /\ si_proc (nth_si p to) + total < max_proc o ->
-  (kind = First -> (max_head o = 0 \/ series <= max_head o) /\ total <= max_proc o) ->
-  ev_good o q (mk_event kind p from to h series total).
+  (max_head o = 0 \/ si_head (nth_si p to) + c_series c < max_head o) /\ si_proc (nth_si p to) + c_total c < max_proc o ->
+  (kind = First -> (max_head o = 0 \/ c_series c <= max_head o) /\ c_total c <= max_proc o) ->
+  ((from <> None -> (min_wait <= c_times c)%N /\ kind <> First) /\
+   (from = None -> kind = First /\ c_times c = c_times (g h) /\ sc h = false)) ->
+  ev_good o g sc q (mk_event kind p from to h c).
 Proof.
-  intros Hle Hok Hne Hfit Hsz. unfold ev_good, ev_fits, ev_sized, mk_event. cbn.
-  split; [eapply ok_of_le; eauto|]. split; [|split; [assumption | split; assumption]].
+  intros Hle Hok Hne Hfit Hsz Hpr. unfold ev_good, ev_fits, ev_sized, ev_prov, mk_event. cbn.
+  split; [eapply ok_of_le; eauto|]. split; [|split; [assumption | split; [assumption | split; assumption]]].
   rewrite (le_len _ _ Hle). now apply lt_of_ok.
+Qed.
+
+Lemma counted_times c : counted c = true -> (min_wait <= c_times c)%N.
+Proof.
+  unfold counted. intros H. apply andb_true_iff in H. destruct H as [_ H]. now apply N.leb_le.
 Qed.
 
 Lemma not_too_big o c : is_too_big o c = false ->
@@ -99,102 +112,106 @@ Proof.
 Qed.
 
 (* ---- relief ---- *)
-Lemma relief_head_step_inv o q k exp st h :
-  EvInv o q (rs_plan st) (rs_events st) ->
-  EvInv o q (rs_plan (relief_head_step o k exp st h)) (rs_events (relief_head_step o k exp st h)).
+Lemma relief_head_step_inv o g sc q k exp st h :
+  EvInv o g sc q (rs_plan st) (rs_events st) ->
+  EvInv o g sc q (rs_plan (relief_head_step o k exp st h)) (rs_events (relief_head_step o k exp st h)).
 Proof.
   intros Inv. unfold relief_head_step.
   destruct (rs_abort st || (rs_total st <=? exp)); [exact Inv|].
   destruct (afind h (scr_of (nth_si (rs_plan st) k))) as [tar|]; [|exact Inv].
-  destruct (negb (counted tar)); [exact Inv|].
+  destruct (counted tar) eqn:Ecnt; cbn [negb]; [|exact Inv].
   destruct (max_head o <? c_series tar); [exact Inv|].
   destruct (first_dest _ _ _) as [j|] eqn:Ej; [|exact Inv]. cbn [rs_plan rs_events].
   apply first_dest_spec in Ej. destruct Ej as [Hne [Hok Hsite]].
   eapply EvInv_app; [exact Inv | apply le_plan_transfer | constructor; [|constructor]].
-  apply mk_event_good; [apply Inv | assumption | congruence | | discriminate].
+  apply mk_event_good; [apply Inv | assumption | congruence | | discriminate |
+                        split; [intros _; split; [now apply counted_times | discriminate] | discriminate]].
   unfold site_head_relief in Hsite. apply andb_true_iff in Hsite. destruct Hsite as [H1 H2].
   apply Z.ltb_lt in H1, H2. auto.
 Qed.
 
-Lemma relief_proc_step_inv o q k exp st h :
-  EvInv o q (rs_plan st) (rs_events st) ->
-  EvInv o q (rs_plan (relief_proc_step o k exp st h)) (rs_events (relief_proc_step o k exp st h)).
+Lemma relief_proc_step_inv o g sc q k exp st h :
+  EvInv o g sc q (rs_plan st) (rs_events st) ->
+  EvInv o g sc q (rs_plan (relief_proc_step o k exp st h)) (rs_events (relief_proc_step o k exp st h)).
 Proof.
   intros Inv. unfold relief_proc_step.
   destruct (rs_abort st || (rs_total st <=? exp)); [exact Inv|].
   destruct (afind h (scr_of (nth_si (rs_plan st) k))) as [tar|]; [|exact Inv].
-  destruct ((c_total tar =? 0) || negb (counted tar)); [exact Inv|].
+  destruct ((c_total tar =? 0) || negb (counted tar)) eqn:Ecnt; [exact Inv|].
+  apply orb_false_iff in Ecnt. destruct Ecnt as [_ Ecnt]. apply negb_false_iff in Ecnt.
   destruct (max_proc o <? c_total tar); [exact Inv|].
   destruct (first_dest _ _ _) as [j|] eqn:Ej; [|exact Inv]. cbn [rs_plan rs_events].
   apply first_dest_spec in Ej. destruct Ej as [Hne [Hok Hsite]].
   eapply EvInv_app; [exact Inv | apply le_plan_transfer | constructor; [|constructor]].
-  apply mk_event_good; [apply Inv | assumption | congruence | | discriminate].
+  apply mk_event_good; [apply Inv | assumption | congruence | | discriminate |
+                        split; [intros _; split; [now apply counted_times | discriminate] | discriminate]].
   unfold site_proc_relief in Hsite. apply andb_true_iff in Hsite. destruct Hsite as [H1 H2].
   apply Z.ltb_lt in H2. split; [|assumption].
   apply orb_true_iff in H1. destruct H1 as [H1|H1]; [left; now apply Z.eqb_eq | right; now apply Z.ltb_lt].
 Qed.
 
-Lemma relief_shard_inv o q step total0 exp p k s :
-  (forall st h, EvInv o q (rs_plan st) (rs_events st) -> EvInv o q (rs_plan (step st h)) (rs_events (step st h))) ->
+Lemma relief_shard_inv o g sc q step total0 exp p k s :
+  (forall st h, EvInv o g sc q (rs_plan st) (rs_events st) -> EvInv o g sc q (rs_plan (step st h)) (rs_events (step st h))) ->
   le_plan q p ->
   let r := relief_shard step total0 exp p k s in
-  EvInv o q (fst (fst (fst r))) (snd (fst r)).
+  EvInv o g sc q (fst (fst (fst r))) (snd (fst r)).
 Proof.
   intros Hs Hle. cbn zeta. unfold relief_shard.
   destruct (total0 <=? exp); [split; [assumption | constructor]|].
   destruct (order _ s) as [keys s1]. cbn [fst snd].
-  apply (fold_left_inv step (fun st => EvInv o q (rs_plan st) (rs_events st))); [|intros; now apply Hs].
+  apply (fold_left_inv step (fun st => EvInv o g sc q (rs_plan st) (rs_events st))); [|intros; now apply Hs].
   split; [assumption | constructor].
 Qed.
 
-Lemma proc_pass_step_inv o q st k :
-  EvInv o q (ps_plan st) (ps_events st) ->
-  EvInv o q (ps_plan (proc_pass_step o st k)) (ps_events (proc_pass_step o st k)).
+Lemma proc_pass_step_inv o g sc q st k :
+  EvInv o g sc q (ps_plan st) (ps_events st) ->
+  EvInv o g sc q (ps_plan (proc_pass_step o st k)) (ps_events (proc_pass_step o st k)).
 Proof.
   intros Inv. unfold proc_pass_step.
   destruct (si_ok _ && _); [|exact Inv].
   match goal with |- context [relief_shard ?a ?b ?c ?d ?e ?f] =>
-    pose proof (relief_shard_inv o q a b c d e f (relief_proc_step_inv o q k _) (proj1 Inv)) as H;
+    pose proof (relief_shard_inv o g sc q a b c d e f (relief_proc_step_inv o g sc q k _) (proj1 Inv)) as H;
     destruct (relief_shard a b c d e f) as [[[p' need] evs] s'] end.
   cbn [fst snd] in H. cbn [ps_plan ps_events].
   destruct H as [H1 H2]. split; [assumption | apply Forall_app; split; [apply Inv | assumption]].
 Qed.
 
-Lemma head_pass_step_inv o q st k :
-  EvInv o q (ps_plan st) (ps_events st) ->
-  EvInv o q (ps_plan (head_pass_step o st k)) (ps_events (head_pass_step o st k)).
+Lemma head_pass_step_inv o g sc q st k :
+  EvInv o g sc q (ps_plan st) (ps_events st) ->
+  EvInv o g sc q (ps_plan (head_pass_step o st k)) (ps_events (head_pass_step o st k)).
 Proof.
   intros Inv. unfold head_pass_step.
   destruct (si_ok _); [|exact Inv].
   destruct (head_threshold _ _) as [exp|]; [|exact Inv].
   match goal with |- context [relief_shard ?a ?b ?c ?d ?e ?f] =>
-    pose proof (relief_shard_inv o q a b c d e f (relief_head_step_inv o q k _) (proj1 Inv)) as H;
+    pose proof (relief_shard_inv o g sc q a b c d e f (relief_head_step_inv o g sc q k _) (proj1 Inv)) as H;
     destruct (relief_shard a b c d e f) as [[[p' need] evs] s'] end.
   cbn [fst snd] in H. cbn [ps_plan ps_events].
   destruct H as [H1 H2]. split; [assumption | apply Forall_app; split; [apply Inv | assumption]].
 Qed.
 
-Lemma alleviate_inv o q s :
-  let r := alleviate o q s in EvInv o q (fst (fst (fst r))) (snd (fst r)).
+Lemma alleviate_inv o g sc q s :
+  let r := alleviate o q s in EvInv o g sc q (fst (fst (fst r))) (snd (fst r)).
 Proof.
   cbn zeta. unfold alleviate. destruct (disable_alleviate o); [split; [apply le_plan_refl | constructor]|].
   set (st0 := {| ps_plan := q; ps_need := 0; ps_events := []; ps_sst := s |}).
-  assert (H1 : EvInv o q (ps_plan (fold_left (proc_pass_step o) (indices q) st0))
+  assert (H1 : EvInv o g sc q (ps_plan (fold_left (proc_pass_step o) (indices q) st0))
                          (ps_events (fold_left (proc_pass_step o) (indices q) st0))).
-  { apply (fold_left_inv (proc_pass_step o) (fun st => EvInv o q (ps_plan st) (ps_events st)));
+  { apply (fold_left_inv (proc_pass_step o) (fun st => EvInv o g sc q (ps_plan st) (ps_events st)));
       [split; [apply le_plan_refl | constructor] | intros; now apply proc_pass_step_inv]. }
   destruct (max_head o =? 0); [exact H1|]. cbn [fst snd].
-  apply (fold_left_inv (head_pass_step o) (fun st => EvInv o q (ps_plan st) (ps_events st)));
+  apply (fold_left_inv (head_pass_step o) (fun st => EvInv o g sc q (ps_plan st) (ps_events st)));
     [exact H1 | intros; now apply head_pass_step_inv].
 Qed.
 
 (* ---- assign ---- *)
-Lemma assign_step_inv o q scraped g st h :
-  EvInv o q (as_plan st) (as_events st) ->
-  EvInv o q (as_plan (assign_step o scraped g st h)) (as_events (assign_step o scraped g st h)).
+Lemma assign_step_inv o q scraped sc g st h :
+  (scraped h = false -> sc h = false) ->
+  EvInv o g sc q (as_plan st) (as_events st) ->
+  EvInv o g sc q (as_plan (assign_step o scraped g st h)) (as_events (assign_step o scraped g st h)).
 Proof.
-  intros Inv. unfold assign_step.
-  destruct (scraped h); [exact Inv|].
+  intros Hsc Inv. unfold assign_step.
+  destruct (scraped h) eqn:Escr; [exact Inv|].
   destruct (negb _); [exact Inv|].
   destruct (is_too_big _ _) eqn:Etb; [exact Inv|].
   destruct (get_free_shard _ _ _ _ _ _) as [[j|] s'] eqn:Ej; [|exact Inv].
@@ -202,78 +219,99 @@ Proof.
   apply get_free_shard_spec in Ej. destruct Ej as [_ [Hok Hsite]].
   eapply EvInv_app; [exact Inv | | constructor; [|constructor]].
   - apply le_plan_upd. intros s0. apply (place_fn_ok h (g h) _ _ s0).
-  - apply mk_event_good; [apply Inv | assumption | discriminate | now apply site_free_fits | intros _; now apply not_too_big].
+  - apply mk_event_good; [apply Inv | assumption | discriminate | now apply site_free_fits | intros _; now apply not_too_big |
+                          split; [intros Hc; now contradiction Hc | intros _; repeat split; auto]].
 Qed.
 
-Lemma assign_inv o q active g p s evs0 :
-  EvInv o q p evs0 ->
-  let r := assign o active g p s in EvInv o q (fst (fst (fst r))) (evs0 ++ snd (fst r)).
+Lemma fold_left_inv_in {A B} (f : A -> B -> A) (P : A -> Prop) l a :
+  P a -> (forall a b, In b l -> P a -> P (f a b)) -> P (fold_left f l a).
 Proof.
-  intros Inv. cbn zeta. unfold assign. destruct (order (akeys active) s) as [keys s1]. cbn [fst snd].
-  match goal with |- EvInv _ _ (as_plan (fold_left ?f ?l ?a)) _ =>
-    assert (H : EvInv o q (as_plan (fold_left f l a)) (as_events (fold_left f l a))) end.
-  { apply (fold_left_inv _ (fun st => EvInv o q (as_plan st) (as_events st)));
-      [split; [apply Inv | constructor] | intros; now apply assign_step_inv]. }
+  revert a. induction l as [|b t IH]; simpl; intros a Ha Hs; [assumption|].
+  apply IH; [apply Hs; auto | intros; apply Hs; auto].
+Qed.
+
+(* sc: "this hash must not be first-assigned": vanished from discovery, or some shard (in sync or not) plans it *)
+Definition not_assignable (active : list (N * N)) (p : plan) (h : N) : bool :=
+  negb (is_active active h) || existsb (fun si => amem h (scr_of si)) p.
+
+Lemma assign_inv o q active g p s evs0 :
+  let sc := not_assignable active p in
+  EvInv o g sc q p evs0 ->
+  let r := assign o active g p s in EvInv o g sc q (fst (fst (fst r))) (evs0 ++ snd (fst r)).
+Proof.
+  intros sc Inv. cbn zeta. unfold assign.
+  pose proof (order_perm (akeys active) s) as Hperm.
+  destruct (order (akeys active) s) as [keys s1]. cbn [fst snd] in *.
+  match goal with |- EvInv _ _ _ _ (as_plan (fold_left ?f ?l ?a)) _ =>
+    assert (H : EvInv o g sc q (as_plan (fold_left f l a)) (as_events (fold_left f l a))) end.
+  { apply (fold_left_inv_in _ (fun st => EvInv o g sc q (as_plan st) (as_events st)));
+      [split; [apply Inv | constructor]|].
+    intros st h Hin Hst. apply assign_step_inv; [|assumption].
+    intros Hs. unfold sc, not_assignable. rewrite Hs, orb_false_r.
+    apply negb_false_iff. unfold is_active. apply amem_keys.
+    eapply Permutation.Permutation_in; [exact Hperm | exact Hin]. }
   destruct H as [H1 H2]. split; [assumption | apply Forall_app; split; [apply Inv | assumption]].
 Qed.
 
 (* ---- scale down ---- *)
-Lemma become_idle_step_inv o q k st h :
-  EvInv o q (is_plan st) (is_events st) ->
-  EvInv o q (is_plan (become_idle_step o k st h)) (is_events (become_idle_step o k st h)).
+Lemma become_idle_step_inv o g sc q k st h :
+  EvInv o g sc q (is_plan st) (is_events st) ->
+  EvInv o g sc q (is_plan (become_idle_step o k st h)) (is_events (become_idle_step o k st h)).
 Proof.
   intros Inv. unfold become_idle_step.
   destruct (is_failed st); [exact Inv|].
   destruct (afind h _) as [tar|]; [|exact Inv].
-  destruct (negb _ || _); [exact Inv|].
+  destruct (negb _ || _) eqn:Eyoung; [exact Inv|].
+  apply orb_false_iff in Eyoung. destruct Eyoung as [_ Eyoung]. apply N.ltb_ge in Eyoung.
   destruct (get_free_shard _ _ _ _ _ _) as [[j|] s'] eqn:Ej; cbn [is_plan is_events]; [|exact Inv].
   apply get_free_shard_spec in Ej. destruct Ej as [Hlt [Hok Hsite]].
   eapply EvInv_app; [exact Inv | apply le_plan_transfer | constructor; [|constructor]].
-  apply mk_event_good; [apply Inv | assumption | intros [= E]; lia | now apply site_free_fits | discriminate].
+  apply mk_event_good; [apply Inv | assumption | intros [= E]; lia | now apply site_free_fits | discriminate |
+                        split; [intros _; split; [assumption | discriminate] | discriminate]].
 Qed.
 
-Lemma become_idle_inv o q p k s :
+Lemma become_idle_inv o g sc q p k s :
   le_plan q p ->
-  let r := become_idle o p k s in EvInv o q (fst (fst (fst r))) (snd (fst (fst r))).
+  let r := become_idle o p k s in EvInv o g sc q (fst (fst (fst r))) (snd (fst (fst r))).
 Proof.
   intros Hle. cbn zeta. unfold become_idle. destruct (order _ s) as [keys s1]. cbn [fst snd].
-  apply (fold_left_inv _ (fun st => EvInv o q (is_plan st) (is_events st)));
+  apply (fold_left_inv _ (fun st => EvInv o g sc q (is_plan st) (is_events st)));
     [split; [assumption | constructor] | intros; now apply become_idle_step_inv].
 Qed.
 
-Lemma scale_down_moves_inv o q i p evs s :
-  EvInv o q p evs ->
-  let r := scale_down_moves o i p evs s in EvInv o q (fst (fst r)) (snd (fst r)).
+Lemma scale_down_moves_inv o g sc q i p evs s :
+  EvInv o g sc q p evs ->
+  let r := scale_down_moves o i p evs s in EvInv o g sc q (fst (fst r)) (snd (fst r)).
 Proof.
   revert p evs s. induction i as [|i IH]; intros p evs s Inv; cbn zeta; simpl; [exact Inv|].
   destruct (si_idle (nth_si p (S i))); [now apply IH|].
   destruct (can_be_idle o p (S i) s) as [can s1].
   destruct (negb can); [exact Inv|].
-  pose proof (become_idle_inv o q p (S i) s1 (proj1 Inv)) as H. cbn zeta in H.
+  pose proof (become_idle_inv o g sc q p (S i) s1 (proj1 Inv)) as H. cbn zeta in H.
   destruct (become_idle o p (S i) s1) as [[[p' evs'] ok] s2]. cbn [fst snd] in H.
-  assert (Inv' : EvInv o q p' (evs ++ evs')).
+  assert (Inv' : EvInv o g sc q p' (evs ++ evs')).
   { destruct H as [H1 H2]. split; [assumption | apply Forall_app; split; [apply Inv | assumption]]. }
   destruct ok; [now apply IH | exact Inv'].
 Qed.
 
-Lemma try_scale_down_inv o q p s :
+Lemma try_scale_down_inv o g sc q p s :
   le_plan q p ->
-  let r := try_scale_down o p s in EvInv o q (snd (fst (fst r))) (snd (fst r)).
+  let r := try_scale_down o p s in EvInv o g sc q (snd (fst (fst r))) (snd (fst r)).
 Proof.
   intros Hle. cbn zeta. unfold try_scale_down.
-  pose proof (scale_down_moves_inv o q (pred (tail_removable o (rev p))) p [] s (conj Hle (Forall_nil _))) as H.
+  pose proof (scale_down_moves_inv o g sc q (pred (tail_removable o (rev p))) p [] s (conj Hle (Forall_nil _))) as H.
   cbn zeta in H. destruct (scale_down_moves _ _ _ _ _) as [[p' evs] s']. exact H.
 Qed.
 
 (* ---- the whole cycle ---- *)
 Lemma stages_events_good o i s :
   let S := run_stages o i s in
-  Forall (ev_good o (st_p1 S)) (st_ev_a S ++ st_ev_b S ++ st_ev_c S).
+  Forall (ev_good o (global_status (i_explore i) (st_p0 S)) (not_assignable (i_active i) (st_p2 S)) (st_p1 S)) (st_ev_a S ++ st_ev_b S ++ st_ev_c S).
 Proof.
-  cbn zeta. unfold run_stages. cbn [st_p1 st_ev_a st_ev_b st_ev_c].
+  cbn zeta. unfold run_stages. cbn [st_p0 st_p1 st_p2 st_ev_a st_ev_b st_ev_c].
   set (p0 := map (fun sh => fst (get_info sh)) (i_shards i)).
   set (p1 := gc o (i_active i) p0).
-  pose proof (alleviate_inv o p1 s) as Ha. cbn zeta in Ha.
+  pose proof (alleviate_inv o (global_status (i_explore i) p0) (not_assignable (i_active i) (fst (fst (fst (alleviate o p1 s))))) p1 s) as Ha. cbn zeta in Ha.
   set (ra := alleviate o p1 s) in *.
   pose proof (assign_inv o p1 (i_active i) (global_status (i_explore i) p0) _ (snd ra) _ Ha) as Hb. cbn zeta in Hb.
   set (rb := assign o (i_active i) (global_status (i_explore i) p0) (fst (fst (fst ra))) (snd ra)) in *.
@@ -281,5 +319,5 @@ Proof.
   rewrite app_assoc. apply Forall_app. split; [exact Hab|].
   destruct (negb _); cbn [fst snd]; [constructor|].
   destruct (negb (max_idle o =? 0)); cbn [fst snd]; [|constructor].
-  apply (try_scale_down_inv o p1 _ _ Hle).
+  apply (try_scale_down_inv o (global_status (i_explore i) p0) _ p1 _ _ Hle).
 Qed.
